@@ -189,6 +189,8 @@ ERR_CLASSES = [
     (r"rules cannot contain @position\. Try the > operator", "override-position"),
     (r"Enum '@:' fields have to be used exactly once", "enum-override-arity"),
     (r"Mixing simple and override fields is not allowed", "mix-override"),
+    (r"(?:Rule name|Field name|Field type|Path segment|Derive path segment) '((?:.|\n)*)' is not a valid Rust identifier", lambda m: "bad-ident:" + hx(m.group(1))),
+    (r"Rules include each other in a cycle", "include-cycle"),
 ]
 
 
